@@ -570,6 +570,69 @@ let run_x args =
     String.concat " ; " outs
   end
 
+(* ------------------------------------------------------------------------------------------ *)
+(* `K <events> | <programs> | <schedule>` (C05, C06, C18): the concurrent machine under a schedule *)
+let z_of_int i = if i = 0 then Z0 else if i > 0 then Zpos (pos_of_int i) else Zneg (pos_of_int (-i))
+let int_of_z = function Z0 -> 0 | Zpos p -> int_of_pos p | Zneg p -> - (int_of_pos p)
+
+let parse_cop (op : string) : cop =
+  let c = op.[0] and rest = String.sub op 1 (String.length op - 1) in
+  let parts = String.split_on_char ':' rest in
+  let r = nat_of_int (match parts with x :: _ when x <> "" -> int_of_string x | _ -> 0) in
+  let arg = match parts with _ :: a :: _ -> int_of_string a | _ -> 0 in
+  match c with
+  | 'f' -> KFirst r | 'l' -> KLast r | 'c' -> KChild (r, nat_of_int arg) | 's' -> KNext r | 'p' -> KPrev r
+  | 'k' -> KClone r | 'd' -> KDrop r
+  | 'S' -> KSet (r, n_of_int arg) | 'T' -> KTrySet (r, n_of_int arg) | 'G' -> KGet r | 'X' -> KClear r
+  | _ -> failwith ("bad thread op " ^ op)
+
+let show_cev = function
+  | CReadLock (b, i) -> Printf.sprintf "R%d.%d" (int_of_nat b) (int_of_nat i)
+  | CReadUnlock (b, i) -> Printf.sprintf "r%d.%d" (int_of_nat b) (int_of_nat i)
+  | CWriteLock (b, i) -> Printf.sprintf "W%d.%d" (int_of_nat b) (int_of_nat i)
+  | CWriteUnlock (b, i) -> Printf.sprintf "w%d.%d" (int_of_nat b) (int_of_nat i)
+  | CDataLock (b, w) -> Printf.sprintf "%s%d" (if w then "D" else "E") (int_of_nat b)
+  | CDataUnlock (b, w) -> Printf.sprintf "%s%d" (if w then "d" else "e") (int_of_nat b)
+  | CRmw d -> let d = int_of_z d in if d >= 0 then Printf.sprintf "+%d" d else string_of_int d
+  | CAlloc b -> Printf.sprintf "A%d" (int_of_nat b)
+  | CFree b -> Printf.sprintf "F%d" (int_of_nat b)
+
+let run_k args =
+  match split_list "|" args with
+  | [evs; progs; sched] ->
+    (match build_in empty_cache evs with
+     | None -> "BUILD-PANIC"
+     | Some (g, _) ->
+       let programs = List.map (List.map parse_cop) (split_list "//" progs) in
+       let schedule = List.map (fun x -> nat_of_int (int_of_string x)) sched in
+       let s0 = cinit g programs in
+       let (sf, tr) = crun g (nat_of_int 100000) s0 schedule O in
+       if not (all_done sf) then "DEADLOCK" else begin
+         let trace = String.concat " " (List.map (fun (t, e) -> string_of_int (int_of_nat t) ^ ":" ^ show_cev e) tr) in
+         let show_handle (p, e) =
+           let path = String.concat "" (List.map (fun i -> "/" ^ string_of_int (int_of_nat i)) (List.rev p)) in
+           let s = true_off_pos g p in
+           let e_ = s + int_of_n (len_at g p) in
+           match e with
+           | ENode b -> Printf.sprintf "n%s#%d@%d..%d" path (int_of_nat b) s e_
+           | EToken pb -> Printf.sprintf "t%s#%d@%d..%d" path (int_of_nat pb) s e_ in
+         let created = ref 0 in
+         let show_res = function
+           | RHandle (Some h) -> show_handle h
+           | RHandle None -> "-"
+           | RDropped -> "dropped"
+           | RSet v -> incr created; Printf.sprintf "set=%d" (int_of_n v)
+           | RTrySet (ok, v) -> incr created; Printf.sprintf "tryset=%s%d" (if ok then "ok" else "err") (int_of_n v)
+           | RGet (Some v) -> Printf.sprintf "get=%d" (int_of_n v)
+           | RGet None -> "get=-"
+           | RCleared -> "cleared"
+           | RNone -> "-" in
+         let res = String.concat " // " (List.map (fun t -> String.concat "," (List.map show_res t.t_out)) sf.c_threads) in
+         (* what the machine still holds at the end: blocks never freed, payloads never dropped *)
+         Printf.sprintf "%s || %s || leak=%d payloads=%d/%d" trace res (List.length sf.c_live) (int_of_nat sf.c_payload_drops) !created
+       end)
+  | _ -> "BAD-CASE"
+
 let run_line line =
   match List.filter (fun s -> s <> "") (String.split_on_char ' ' line) with
   | [] -> ""
@@ -579,6 +642,7 @@ let run_line line =
   | "G" :: args -> run_g args
   | "Y" :: args -> run_y args
   | "I" :: args -> run_i args
+  | "K" :: args -> run_k args
   | "A" :: args -> run_a args
   | "Q" :: args -> run_q args
   | "X" :: args -> run_x args
